@@ -252,9 +252,17 @@ func deviationsFor(root *memfs.Node) []deviation {
 		ds = append(ds, deviation{"paths", func(o *opts) { o.Paths = []string{d} }})
 		ds = append(ds, deviation{"paths", func(o *opts) { o.Paths = []string{d}; o.NoSub = true }})
 		for _, f := range files {
-			if strings.HasPrefix(f, d+"/") {
-				f := f
-				ds = append(ds, deviation{"paths", func(o *opts) { o.Paths = []string{d, f} }})
+			f := f
+			// a directory followed by a file (inside it or anywhere else) and the reverse order
+			ds = append(ds, deviation{"paths", func(o *opts) { o.Paths = []string{d, f} }})
+			if !strings.HasPrefix(f, d+"/") {
+				ds = append(ds, deviation{"paths", func(o *opts) { o.Paths = []string{f, d} }})
+			}
+		}
+		for _, d2 := range dirs {
+			d2 := d2
+			if d2 != d && !strings.HasPrefix(d2, d+"/") && !strings.HasPrefix(d, d2+"/") {
+				ds = append(ds, deviation{"paths", func(o *opts) { o.Paths = []string{d, d2} }})
 			}
 		}
 	}
@@ -840,6 +848,28 @@ func main() {
 			ts := root.String()
 			for _, o := range optionVectors(root, dev) {
 				if !validOptions(root, o) {
+					// a don't-care cell of the model (e.g. a requested file that a parent .gitignore
+					// excludes). One law still holds there without any model: the extractions for two
+					// requested paths do not depend on the order in which they are listed.
+					if len(o.Paths) == 2 && !o.NoSub {
+						c1 := &caseT{Tree: ts, Opts: o, Exs: exSets[1], ExS: exStr(exSets[1]), root: root}
+						o2 := o
+						o2.Paths = []string{o.Paths[1], o.Paths[0]}
+						c2 := &caseT{Tree: ts, Opts: o2, Exs: exSets[1], ExS: exStr(exSets[1]), root: root}
+						out1, e1 := runImpl(c1)
+						out2, e2 := runImpl(c2)
+						r.Evals.Add(2)
+						if e1 == nil && e2 == nil {
+							a, b := append([]string{}, out1.calls...), append([]string{}, out2.calls...)
+							sort.Strings(a)
+							sort.Strings(b)
+							if strings.Join(a, ";") != strings.Join(b, ";") {
+								r.Violation("requested-path-order-changes-result:"+o.active(), fmt.Sprintf("tree %s options %+v: PathsToExtract %v extracts %v, reversed order extracts %v", ts, o, o.Paths, a, b), c1)
+							} else if len(a) > 0 {
+								r.Nontrivial.Add(1)
+							}
+						}
+					}
 					continue
 				}
 				for _, es := range exSets {
@@ -863,6 +893,7 @@ func main() {
 		r.Set(fmt.Sprintf("trees_with_%d_nodes", n), len(valid))
 	}
 	twoRealRoots(r, ls)
+	twoDifferentRoots(r, ls)
 	r.Set("bound", map[string]any{"max_nodes_completed": completedNodes, "max_option_deviations": maxDev, "extractor_sets": len(exSets)})
 	r.Assume("reference dispatch model (this file, ~200 lines) states git's .gitignore semantics for the 5-pattern alphabet and the skip rules of the property text")
 	r.Assume("regular-expression and glob *matching* are taken from the same libraries the implementation uses; only the dispatch logic is under test")
@@ -912,6 +943,74 @@ func replay(r *ev.Run, p string) {
 	}
 	fmt.Println("replay: tree not found in the enumeration")
 	os.Exit(3)
+}
+
+// variantOf returns a copy of the tree in which every regular file has the other mode and another
+// size, so that the same relative path means something different in the second root.
+func variantOf(t *memfs.Node) *memfs.Node {
+	c := t.Clone()
+	memfs.Walk(c, func(_ string, nd *memfs.Node) {
+		if nd.Kind == memfs.File && nd.Name != ".gitignore" {
+			if nd.Perm&0o111 != 0 {
+				nd.Perm = 0o644
+			} else {
+				nd.Perm = 0o755
+			}
+			if len(nd.Data) >= 5 {
+				nd.Data = "x"
+			} else {
+				nd.Data = "xxxxxx"
+			}
+		}
+	})
+	return c
+}
+
+// twoDifferentRoots: each root must be judged by its own files (the walker caches one lazy Stat
+// per file and shares its context between roots). Expected calls = the model run on each root.
+func twoDifferentRoots(r *ev.Run, ls []label) {
+	es := exSets[2] // e-exec (FileRequired calls Stat) and e-base
+	for n := 1; n <= 3; n++ {
+		for _, t := range genTrees(ls, n) {
+			if !fixSymlinks(t) {
+				continue
+			}
+			v := variantOf(t)
+			for _, ms := range []int{0, 1, 5} {
+				for _, order := range [][2]*memfs.Node{{t, v}, {v, t}} {
+					rec := &scankit.Rec{}
+					var exs []filesystem.Extractor
+					for _, e := range es {
+						exs = append(exs, &scankit.Ex{N: e.name, Rec: rec, Req: reqFn(e.req)})
+					}
+					cfg := &scalibr.ScanConfig{FilesystemExtractors: exs, Capabilities: &plugin.Capabilities{}, MaxFileSize: ms,
+						ScanRoots: []*scalibrfs.ScanRoot{{FS: memfs.New(order[0]), Path: "/r"}, {FS: memfs.New(order[1]), Path: "/r2"}}}
+					res := scalibr.New().Scan(context.Background(), cfg)
+					r.Evals.Add(1)
+					var want, got []string
+					for i, root := range order {
+						m := &model{root: root, o: opts{MaxSize: ms}, exs: es, dc: map[string]bool{}}
+						m.run()
+						for _, c := range m.calls {
+							want = append(want, []string{"/r", "/r2"}[i]+"|"+c)
+						}
+					}
+					for _, e := range rec.Of("extract") {
+						got = append(got, e.Root+"|"+e.Ex+"|"+e.Path)
+					}
+					sort.Strings(want)
+					sort.Strings(got)
+					if len(want) > 0 {
+						r.Nontrivial.Add(1)
+					}
+					if strings.HasPrefix(res.Status.String(), "FAILED") || strings.Join(want, ";") != strings.Join(got, ";") {
+						r.Violation("two-different-roots:extractions-differ", fmt.Sprintf("roots /r=%s /r2=%s MaxFileSize=%d extractors %s: extracted %v, each root alone gives %v (%s)", order[0], order[1], ms, exStr(es), got, want, res.Status),
+							map[string]any{"root1": order[0].String(), "root2": order[1].String(), "max_file_size": ms})
+					}
+				}
+			}
+		}
+	}
 }
 
 // twoRealRoots: two scan roots with host paths where one root's path is a string prefix of the
